@@ -262,7 +262,7 @@ def execute(ctx, case: dict) -> None:
     _drain(case, ctx)
 
 
-def _request(rng, lo, hi, small_bias=True, max_width=40):
+def _request(rng, lo, hi, small_bias=True, max_width=40, overlap=False):
     parts = []
     used = ()
     for _ in range(rng.randint(1, 12)):
@@ -273,7 +273,7 @@ def _request(rng, lo, hi, small_bias=True, max_width=40):
             a = rng.randint(lo, hi)
         b = a if rng.random() < 0.6 else min(hi, a + rng.randint(1, max_width))
         cand = ((a, b),)
-        if intervals.intersect(used, cand):
+        if intervals.intersect(used, cand) and (not overlap or a == b):
             continue
         used = intervals.union(used, cand)
         parts.append((str(a) if rng.random() < 0.85 else f"{a}-{a}") if a == b else f"{a}-{b}")
@@ -319,7 +319,7 @@ def gen_cases(ctx):
                 elif top == "eq" and port_range and rng.random() < 0.8:
                     req = ",".join(p for p in _request(rng, 1, 65535).split(",") if "-" not in p) or "80"
                 else:
-                    req = _request(rng, 1, 65535, max_width=40 if not port_range else 3000)
+                    req = _request(rng, 1, 65535, max_width=40 if not port_range else 3000, overlap=rng.random() < 0.25)
                 case[side + "ports"] = req
         yield case
 
